@@ -21,6 +21,7 @@ EXTENDS Naturals, Sequences, FiniteSets, TLC
 CONSTANTS NTasks, N, MaxOps, MaxRec, MaxT, MTypes,
           Kinds,   \* scope kinds the environment opens: subset of {"s", "a"} (sync / async)
           Prep,    \* BOOLEAN: scope objects made in one place and entered in another are explored
+          Threads, \* BOOLEAN: attempts to open a scope off the event loop (OffLoop) are explored
           Bug
 (* MTypes \subseteq {"Cat", "Last", "Sum", "Boom", "Same"}
    "Same": every record is the very same (shared, immutable) instance, folded by addition - the value counts the records
@@ -196,6 +197,14 @@ RunCb(s) ==
   /\ obs' = [obs EXCEPT !.cb = cblog']
   /\ UNCHANGED <<par, kids, phase, mk, kind, done, born, doneAt, vals, cur, tg, stack, saved, grp, alive, wait, now, nrec, nops, drained>>
 
+(* code of task t running OFF the event loop (a worker thread, with a copy of t's context - what `asynchronous` does)
+   tries to open a scope there: whether that is refused (no event loop in that thread) or works, t's scopes are what
+   they were and complete as they would have *)
+OffLoop(t) ==
+  /\ Threads /\ Op /\ Free(t)
+  /\ UNCHANGED <<par, kids, phase, mk, kind, done, born, doneAt, cbq, cblog, vals, cur, tg, stack, saved, grp, alive, wait, now, nrec, drained>>
+  /\ obs' = [a |-> "offloop", cb |-> cblog, res |-> "ok"]
+
 Start(t, u, how) ==
   /\ Op /\ Free(t) /\ alive[u] = "unborn" /\ \A w \in Tasks : w < u => alive[w] # "unborn"
   \* spawning needs a current group that is still open (a plain task that outlived the async scope it inherited would
@@ -270,7 +279,7 @@ Drain ==
   /\ UNCHANGED <<par, kids, phase, mk, kind, done, born, doneAt, cbq, cblog, vals, cur, tg, stack, saved, grp, alive, wait,
                  now, nrec, nops>>
 
-Controlled == \/ \E t \in Tasks : (\E k \in Kinds : Open(t, k) \/ Make(t, k)) \/ EnterMade(t) \/ Close(t) \/ End(t)
+Controlled == \/ \E t \in Tasks : (\E k \in Kinds : Open(t, k) \/ Make(t, k)) \/ EnterMade(t) \/ OffLoop(t) \/ Close(t) \/ End(t)
                                   \/ (\E u \in Tasks, how \in {"spawn", "plain"} : Start(t, u, how))
                                   \/ (\E m \in MTypes : Record(t, m))
               \/ Tick \/ Drain
